@@ -381,6 +381,7 @@ func fileSHA(path string) string {
 
 func cmdCheck(prop, tier string) int {
 	start := time.Now()
+	*flagCanary = true
 	timeout := *flagTimeout
 	if tier == "thorough" {
 		timeout = 120
@@ -427,6 +428,23 @@ func cmdCheck(prop, tier string) int {
 				all = append(all, o)
 				functions = append(functions, g.fname)
 				continue
+			}
+			if tier != "thorough" {
+				// quick tier: one reachability canary per function (its last return); thorough: every return
+				last := -1
+				for i, o := range g.obls {
+					if o.Class == "V" && strings.HasSuffix(o.Name, ":reachable") {
+						last = i
+					}
+				}
+				var keep []*Obligation
+				for i, o := range g.obls {
+					if o.Class == "V" && strings.HasSuffix(o.Name, ":reachable") && i != last {
+						continue
+					}
+					keep = append(keep, o)
+				}
+				g.obls = keep
 			}
 			if len(g.obls) > 0 {
 				functions = append(functions, g.fname)
